@@ -22,13 +22,19 @@ RULE = ("per stream class: the class generator's image, post-processed so that a
         "(scan detection); 6 requests per image (unit edges, far ends, random). Expected: content = construction truth; bytes read at "
         "open ≤ metadata + 64 KiB; bytes read per request ≤ metadata + 2·len + 4·buffer (+ 2 units for compressed data) + 16 KiB, where "
         "metadata = the bytes of headers and tables the generator wrote (no term for allocated data). Non-trivial = some unit or table "
-        "of the image lies at a file offset ≥ 2^32; distinct recipe hash. Footprint (VDI, VHD, HDS, VHDX): every read() the real code issues on "
-        "a backing handle during a request lies inside the ranges of the Lean footprint (Hv.Footprint.*, proved complete in "
-        "HvProofs/Footprint.lean) of the request enlarged to the stream's 8 KiB buffer alignment; for HDS chains per layer file.")
+        "of the image lies at a file offset ≥ 2^32; distinct recipe hash. Footprint (VDI, VHD, HDS, VHDX, VMDK uncompressed sparse extents, QCOW2): "
+        "every read() the real code issues on a backing handle during a request lies inside the ranges of the Lean footprint (Hv.Footprint.*, "
+        "proved complete in HvProofs/Footprint*.lean) of the request enlarged to the stream's 8 KiB buffer alignment; for HDS chains per layer "
+        "file, for QCOW2 per file (image / external data file). VMDK and QCOW2: the theorem's footprint names single table entries, the real code "
+        "transfers the whole grain table / L2 table holding them (LRU-cached), so the comparison uses the footprint with entries widened to "
+        "their table (Footprint.vmdkIO / qcow2MetaIO ⊇ the theorem's footprint); the driver also evaluates the theorem's footprint and its "
+        "proved size bound (io_bound_tables) and the harness checks total ≤ bound. VHDX: the reads of the constructor are compared with "
+        "Footprint.vhdxOpen as well.")
 ASSUMPTIONS = ["read-ahead inside Python's own file objects is outside the model; the handles here are unbuffered counting objects",
                "the numeric I/O bound is evaluated by the harness from the generator's geometry; the Lean side proves the wide-offset arithmetic, "
-               "re-computes the content and (VDI, VHD, HDS; VHDX partially) proves the footprint theorems whose footprint is compared with the recorded accesses",
-               "QCOW2 and VMDK have no footprint theorem yet (VHDX: proved for requests that touch no partially-present block): there the I/O clause is the measured bound only"]
+               "re-computes the content and proves the footprint theorems (VDI, VHD, HDS, VHDX, VMDK uncompressed sparse, QCOW2) whose footprint is compared with the recorded accesses",
+               "VMDK stream-optimised (compressed) extents and flat extents have no footprint theorem: there the I/O clause is the measured bound only; "
+               "VHDX constructor: the footprint theorem covers every file access of __init__ (vhdx_open_footprint_partial), not yet the assembled object"]
 TIMEOUT_CASE = 60.0
 F32 = 1 << 32
 
@@ -148,7 +154,8 @@ def build(case):
     return b
 
 
-FP_CLASSES = ("c05", "c04", "c06", "c03")     # classes with a proved footprint (HvProofs/Footprint.lean; c03 = VHDX: partial)
+FP_CLASSES = ("c05", "c04", "c06", "c03", "c02", "c01")     # classes with a proved footprint (HvProofs/Footprint*.lean)
+NO_OPENFP = ("c02", "c01")                                    # no separate open-footprint line (QCOW2: the L1 table comes with every footprint line)
 
 
 def _enlarged(q, align):
@@ -172,6 +179,10 @@ def fp_lines(case, built):
             out.append(f"vhd.footprint a {a} {n}")
         elif cls == "c03":
             out.append(f"vhdx.footprint {a} {n} " + " ".join(sorted(built.files)))
+        elif cls == "c02":
+            out.append(f"vmdk.footprint {a} {n} a")
+        elif cls == "c01":
+            out.append(f"qcow2.footprint {case['align']} {a} {n} " + " ".join(built.info["tokens"]))
         else:
             out.append(f"hds.footprint {a} {n} " + " ".join(f"l{k}" for k in range(len(built.files))))
     # what the constructor (in the model) looks at: the real code may load the same tables lazily, inside the first request
@@ -180,7 +191,9 @@ def fp_lines(case, built):
     elif cls == "c04":
         out.append("vhd.openfp a")
     elif cls == "c03":
-        pass          # VHDX: no open footprint defined; the real code reads nothing but BAT entries and data after open
+        out += [f"vhdx.openfp {k}" for k in sorted(built.files)][:1]     # compared with the reads of the constructor (single-layer images)
+    elif cls in NO_OPENFP:
+        pass
     else:
         out += [f"hds.openfp l{k}" for k in range(len(built.files))]
     return out
@@ -200,6 +213,14 @@ def parse_fp(cls, line):
     if not line or not line.startswith("ok"):
         return None
     body = line[2:].strip()
+    if cls in ("c02", "c01"):
+        kv = dict(part.split("=", 1) for part in body.split(";") if "=" in part)
+        rng = lambda key: _ranges(kv.get(key, "").split(","))
+        if cls == "c02":
+            return [rng("io")]
+        if "df=1" in body.split(";")[0]:
+            return [rng("m") + rng("o"), rng("d")]
+        return [rng("m") + rng("o") + rng("d")]
     if cls == "c06":
         per = []
         for part in body.split(";"):
@@ -235,12 +256,38 @@ def fp_verdict(ranges_per_handle, trace_per_handle):
     return "FP-ok", checked
 
 
+def fp_bound_verdict(cls, line):
+    """the theorem's footprint obeys its proved size bound (a sanity instance of io_bound_tables), and lies inside the widened one"""
+    if cls not in ("c02", "c01") or not line or not line.startswith("ok"):
+        return None
+    kv = dict(part.split("=", 1) for part in line[2:].strip().split(";") if "=" in part)
+    try:
+        if cls == "c02":
+            ok = int(kv["tot"]) <= int(kv["bound"])
+            wide, narrow = _merge(_ranges(kv["io"].split(","))), _ranges(kv["fp"].split(","))
+        else:
+            ok = int(kv["tm"]) <= int(kv["bm"])
+            wide, narrow = _merge(_ranges(kv["m"].split(","))), _ranges(kv["fm"].split(","))
+    except (KeyError, ValueError):
+        return "FP-bad-bound-line"
+    if not ok:
+        return "FP-bound"
+    if not all(any(lo <= o and o + n <= hi for lo, hi in wide) for o, n in narrow if n > 0):
+        return "FP-narrow-outside-wide"
+    return None
+
+
 def impl_run(case, built):
     m = mod(case["cls"])
     sparse.TRACK = []
+    sparse.LOG_NEW = case["cls"] == "c03"
     try:
-        s = m.open_impl(case, built)
+        try:
+            s = m.open_impl(case, built)
+        finally:
+            sparse.LOG_NEW = False
         handles = list(sparse.TRACK)
+        open_trace = [[list(c) for c in (h.calls or [])] for h in handles]
         for h in handles:
             h.calls = []                  # from here on every read() on a backing handle is logged as (pos, n)
         trace = []
@@ -263,7 +310,8 @@ def impl_run(case, built):
                 h.calls = []
             bound = meta + 2 * q[2] + 4 * align + (2 * unit if case["comp"] else 0) + (16 << 10)
             io.append("IO-ok" if used <= bound else f"IO:{used}>{bound}")
-        return {"answers": answers + io + ["FP-ok"] * len(case["queries"]), "errors": errors, "open_io": open_io, "trace": trace}
+        return {"answers": answers + io + ["FP-ok"] * len(case["queries"]), "errors": errors, "open_io": open_io, "trace": trace,
+                "open_trace": open_trace}
     finally:
         sparse.TRACK = None
 
@@ -277,6 +325,7 @@ def model_lines(case, built):
 def model_lines2(case, built, impl):
     """the footprint comparison needs what the implementation run observed: the per-request access log"""
     built.info["trace"] = impl.get("trace") if isinstance(impl, dict) else None
+    built.info["open_trace"] = impl.get("open_trace") if isinstance(impl, dict) else None
     return model_lines(case, built)
 
 
@@ -286,8 +335,19 @@ def model_parse(case, built, out):
     fp, checked = [], 0
     trace = built.info.get("trace") or []
     nh = len(built.files) if case["cls"] == "c06" else 1
-    opens = [parse_fp("c05", l) for l in out[2 + built.nq: 2 + built.nq + nh]] if case["cls"] in FP_CLASSES and case["cls"] != "c03" else []
+    has_open = case["cls"] in FP_CLASSES and case["cls"] not in NO_OPENFP
+    opens = [parse_fp("c05", l) for l in out[2 + built.nq: 2 + built.nq + nh]] if has_open else []
     opens = [(o[0] if o else []) for o in opens]
+    open_bad = None
+    if case["cls"] == "c03":
+        # VHDX: the constructor's own reads against Footprint.vhdxOpen; nothing of it is added to the per-request footprints
+        ot = built.info.get("open_trace") or []
+        if opens and ot and len(built.files) == 1:
+            v0, k0 = fp_verdict([opens[0]], ot[:1])
+            checked += k0
+            if v0 != "FP-ok":
+                open_bad = "open-" + v0
+        opens = []
     for i in range(built.nq):
         v = "FP-ok"
         if case["cls"] in FP_CLASSES and i < len(trace) and len(out) > 2 + i:
@@ -298,6 +358,10 @@ def model_parse(case, built, out):
                 rs = [r + (opens[h] if h < len(opens) else []) for h, r in enumerate(rs)]
                 v, k = fp_verdict(rs, trace[i])
                 checked += k
+                if v == "FP-ok":
+                    v = fp_bound_verdict(case["cls"], out[2 + i]) or v
+        if i == 0 and open_bad and v == "FP-ok":
+            v = open_bad
         fp.append(v)
     if checked and "fp-compared" not in built.info["branches"]:
         built.info["branches"] = built.info["branches"] + ["fp-compared"]
